@@ -35,6 +35,8 @@ from .ctx import CanParse, Ctx, is_func
 from .infos import MemoKey, ParseInfo, RuleInfo, RuleResult
 from .state import ParseStateStack
 
+MAX_CONSTANT_PASSES = 16
+
 
 type RuleOutcome = RuleResult | ParseException
 type MemoCache = dict[MemoKey, RuleOutcome]
@@ -312,10 +314,18 @@ class ParserEngine(ParserCore, CanParse):
 
         expression = Undefined
         result = literal
+        passes = 0
         while result != expression:
             expression = result
             if not isinstance(expression, str):
                 break
+
+            # NOTE: a value that interpolates into itself (input text such as '{a}x') never reaches a fixpoint
+            passes += 1
+            if passes > MAX_CONSTANT_PASSES:
+                raise self.newexcept(
+                    f'Error evaluating constant {literal!r}: no fixpoint after {MAX_CONSTANT_PASSES} passes',
+                )
 
             expression = trim(expression)
             with suppress(ValueError, SyntaxError, TypeError):
